@@ -87,6 +87,11 @@ type hprog struct {
 	// Go randomises the iteration order of spok's own maps (e.g. SpokFile.Tasks); it cannot be
 	// controlled from outside, so for programs where it could matter it is at least varied.
 	Reps int `json:"reps,omitempty"`
+	// FileOrd: the iteration order of SpokFile.Tasks and SpokFile.Vars inside file/file.go is a
+	// choice point too (overlay/patch_file.py): every run op is executed under every permutation at
+	// each such iteration, with at most one iteration per execution departing from sorted order
+	// (deviation bound 1), on top of every order of the topological sort.
+	FileOrd bool `json:"file_ord,omitempty"`
 	// ReqMax > 0 limits the length of request lists (chains: requesting the last task runs everything)
 	ReqMax int `json:"req_max,omitempty"`
 	// Variants: the spokfile itself may be edited between invocations. Each variant is the subset
@@ -199,7 +204,7 @@ func histCatalogue() []hprog {
 		{Name: "P12-later-task-bumps-input", Tasks: []htask{{Name: "ta", Lits: []string{"g.txt"}}, {Name: "tb", Deps: []string{"ta"}, EffFile: 1, EffVal: "gen"}},
 			Files: []hfile{globf("g.txt", "v0", "gen")}},
 		// two tasks sharing their first glob, each with its own literal file, and up to three matches
-		{Name: "P13-shared-glob-own-files", Reps: 4, Tasks: []htask{{Name: "ta", Globs: []string{"*.src"}, Lits: []string{"a.txt"}}, {Name: "tb", Globs: []string{"*.src"}, Lits: []string{"b.txt"}}},
+		{Name: "P13-shared-glob-own-files", Reps: 2, FileOrd: true, Tasks: []htask{{Name: "ta", Globs: []string{"*.src"}, Lits: []string{"a.txt"}}, {Name: "tb", Globs: []string{"*.src"}, Lits: []string{"b.txt"}}},
 			Files: []hfile{lit("a.txt"), lit("b.txt"), globf("x.src", "v0", "v1"), globf("y.src", "v0"), globf("z.src", "v0")}},
 		// a task whose commands CREATE a file matched by another task's glob (a generated source)
 		{Name: "P14-generates-glob-match", Tasks: []htask{{Name: "ta", Lits: []string{"seed.txt"}, EffFile: 3, EffVal: "gen"}, {Name: "tb", Deps: []string{"ta"}, Globs: []string{"*.src"}}},
@@ -322,6 +327,16 @@ func histAllSmall() []hprog {
 
 func histPrograms(tier string) []hprog {
 	p := histCatalogue()
+	// programs whose run ops are also explored under every iteration order of spok's own maps
+	// (quick: two-task programs where the tasks share patterns or one task's commands change what the
+	// other's patterns match; thorough: every catalogue program with at least two tasks)
+	quickOrd := map[string]bool{"P11-rewrites-shared-input": true, "P13-shared-glob-own-files": true, "P14-generates-glob-match": true,
+		"P28-generator-keeps-directory-time": true}
+	for i := range p {
+		if dagControlled && len(p[i].Tasks) >= 2 && (quickOrd[p[i].Name] || tier == "thorough") {
+			p[i].FileOrd = true
+		}
+	}
 	if tier == "thorough" {
 		p = append(p, histAllSmall()...)
 	}
@@ -598,6 +613,36 @@ func readDisk(sb *proj.Sandbox, p hprog, before hdisk) hdisk {
 	return d
 }
 
+// fileOrderHook answers the map iterations of file/file.go from the chooser: any permutation, but
+// once one iteration of this execution has departed from sorted order the later ones keep it
+// (deviation bound 1), which keeps the number of executions linear in the number of iterations.
+func fileOrderHook(c *choose.Chooser) func(n int) []int {
+	deviated := false
+	return func(n int) []int {
+		if deviated {
+			id := make([]int, n)
+			for i := range id {
+				id[i] = i
+			}
+			return id
+		}
+		p := c.Perm(n)
+		for i, v := range p {
+			if v != i {
+				deviated = true
+			}
+		}
+		fileOrderPoints++
+		return p
+	}
+}
+
+// fileOrderPoints counts the controlled map iterations answered (for the evidence).
+var fileOrderPoints int
+
+// histRealRuns counts the in-process spok invocations made by execRun.
+var histRealRuns int64
+
 // execRun runs a run-op under every iteration order; distinct outcomes only.
 func execRun(sb *proj.Sandbox, p hprog, text string, d hdisk, op hop) []hexec {
 	text = p.textOf(d.Var)
@@ -614,13 +659,18 @@ func execRun(sb *proj.Sandbox, p hprog, text string, d hdisk, op hop) []hexec {
 		for rep := 0; rep < reps; rep++ {
 			c = choose.NewReplay(prefix)
 			setDagOrder(func(n int) []int { return c.Perm(n) })
+			if p.FileOrd {
+				setFileOrder(fileOrderHook(c))
+			}
 			materialise(sb, p, d)
 			sb.SetFailing(op.Fail, p.taskNames())
 			if op.Fault == "ro-cache" {
 				os.Chmod(cachePath, 0o444)
 			}
 			out := sb.Run(text, op.Force, op.Req...)
+			histRealRuns++
 			setDagOrder(nil)
+			setFileOrder(nil)
 			if op.Fault == "ro-cache" {
 				os.Chmod(cachePath, 0o644)
 			}
@@ -835,6 +885,8 @@ type histResult struct {
 	DiskStates      int64            `json:"disk_states"`
 	Transitions     int64            `json:"transitions"`
 	Execs           int64            `json:"execs"`
+	RealRuns        int64            `json:"real_runs"`       // spok invocations actually made by execRun (all iteration orders)
+	FileOrdPoints   int64            `json:"file_ord_points"` // map iterations of file/file.go answered by the explorer
 	RunTrans        int64            `json:"run_transitions"`
 	SkipsSeen       int64            `json:"skips_seen"`
 	MaxDepth        int              `json:"max_depth"`
@@ -1095,6 +1147,7 @@ func histWorker(args []string) {
 	}
 	res, _ := histSearch(sb, p, prop, cap, true, forceFree)
 	res.ForceFreeStates = int64(len(forceFree))
+	res.RealRuns, res.FileOrdPoints = histRealRuns, int64(fileOrderPoints)
 	os.Stdout.Write(pool.MustJSON(res))
 }
 
@@ -1146,7 +1199,7 @@ func histCheck(prop, tier string) int {
 	if prop == "C14" {
 		run.Set("default_task_force_invocations", c14DefaultForce(run))
 	}
-	var states, trans, execs, runs, skips, dstates, conform, conformNew int64
+	var states, trans, execs, runs, skips, dstates, conform, conformNew, realRuns, fileOrdPoints int64
 	outcomes := map[string]int64{}
 	perProg := map[string]any{}
 	exhaustive := true
@@ -1155,6 +1208,8 @@ func histCheck(prop, tier string) int {
 		states += r.States
 		trans += r.Transitions
 		execs += r.Execs
+		realRuns += r.RealRuns
+		fileOrdPoints += r.FileOrdPoints
 		runs += r.RunTrans
 		skips += r.SkipsSeen
 		dstates += r.DiskStates
@@ -1180,6 +1235,15 @@ func histCheck(prop, tier string) int {
 	run.Set("evaluations", trans)
 	run.Set("distinct_nontrivial", runs)
 	run.Set("real_run_executions", execs)
+	run.Set("spok_invocations_over_all_iteration_orders", realRuns)
+	run.Set("file_map_iterations_answered_by_explorer", fileOrdPoints)
+	var ordProgs []string
+	for _, p := range progs {
+		if p.FileOrd {
+			ordProgs = append(ordProgs, p.Name)
+		}
+	}
+	run.Set("programs_with_controlled_file_map_order", ordProgs)
 	run.Set("disk_states", dstates)
 	run.Set("binary_invocations_replayed", conform)
 	run.Set("binary_outcomes_not_seen_in_process", conformNew)
@@ -1190,7 +1254,7 @@ func histCheck(prop, tier string) int {
 	run.Set("programs", len(progs))
 	run.Set("per_program", perProg)
 	run.Set("exhaustive", exhaustive)
-	run.Set("rule", "explicit-state BFS to closure over (disk, reference model) states per program; transitions = ops {set file to a value (create/edit/revert/delete), run any ordered request list with/without --force with failing set in {none, each task, all}, remove .spok / remove cache.json}; every run transition is a real in-process spok invocation on the materialised disk, branched over every map-iteration order of the topological sort (memoised per (disk, op)); non-trivial = run transitions (each checked against the model)")
+	run.Set("rule", "explicit-state BFS to closure over (disk, reference model) states per program; transitions = ops {set file to a value (create/edit/revert/delete), run any ordered request list with/without --force with failing set in {none, each task, all}, remove .spok / remove cache.json}; every run transition is a real in-process spok invocation on the materialised disk, branched over every map-iteration order of the topological sort and, for the programs listed under programs_with_controlled_file_map_order, every iteration order of SpokFile.Tasks/Vars in file/file.go with at most one departure from sorted order per execution (memoised per (disk, op)); non-trivial = run transitions (each checked against the model)")
 	run.Assumes("between invocations all state is on disk (files + .spok), so a state can be materialised instead of replayed", "task commands log to a harness-owned file: the model is updated from what really executed, not from spok's report",
 		"the model: a task completed successfully iff its commands ran and it was not in the failing set; removing the cache forgets every success")
 	return run.Finish()
